@@ -161,10 +161,7 @@ Fixpoint sem (m : mode) (s : sch) (dat : data) (d : dval) (e0 : bool) {struct s}
 
   | SStruct fs tests pts =>
     let dtype := "struct" in
-    let wrap := match m with
-                | Parse => fun (y : string) e => mk_err_issue y dtype (uerr_text e)
-                | Validate => fun (y : string) e => mk_unknown_issue y dtype e
-                end in
+    let wrap := fun (y : string) e => mk_unknown_issue y dtype e in     (* ctx.IssueFromUnknownError(err), both modes *)
     let body (pv : prov) :=
       let '(lf, dfs) := sem_fields (sem m) m pv fs (dstruct_fields d) e0 in
       let d1 := DStruct dfs in
